@@ -401,6 +401,7 @@ func propC04() *PropSpec {
 			js = append(js, jobsN("css", "VerifCSSDataURL", pick(rng(1, 3), rng(1, 4)), "url(Q data:text/plain,<n units> Q): one well-formed url(), same payload")...)
 			js = append(js, jobsN("css", "VerifCSSBox", rng(1, 4), "margin/padding/border-width/inset with n values")...)
 			js = append(js, jobsN("css", "VerifCSSBgPos", rng(1, 4), "background-position with n tokens")...)
+			js = append(js, jobsN("css", "VerifCSSBgPosLayers", rng(2, 4), "background-position with three layers (4 x 4 leading layers, last layer of n tokens over 6 words): every layer keeps its position")...)
 			js = append(js, jobsN("css", "VerifCSSFlex", rng(1, 3), "flex with n tokens")...)
 			js = append(js, Job{Pkg: "css", Fn: "VerifCSSTwin", N: 0, ExpectFail: true, Desc: "vacuity twin"})
 			return js
